@@ -161,74 +161,76 @@ Fixpoint decode_recv (U T : Z) (st : list Z) (ds : list (Z * Z)) : list (Z * Z) 
            end
   end.
 
-(* --- ground truth kept by the oracle: every Record as (position, unwrapped number, time) --- *)
-Definition grec := (Z * Z * Z)%type.
-Definition g_i (a : grec) : Z := fst (fst a).
-Definition g_u (a : grec) : Z := snd (fst a).
-Definition g_t (a : grec) : Z := snd a.
+(* --- ground truth kept by the oracle itself ---
+   The "retained" reading of DESIGN C05, stated here as a specification of
+   which arrivals are part of the history (it mentions no buffer, chunk, delta
+   or packet):
+     R        the retained arrivals, number -> time of its first retained arrival;
+     [lo,hi)  the window: hi = newest number + 1, hi - lo <= 2^15;
+     S        every retained arrival below S has been reported.
+   A record of a number that has a retained arrival is ignored (first arrival
+   wins).  Otherwise it is retained unless it lies 2^15 or more below the
+   newest number; a record 2^15 or more ahead of the newest number discards
+   everything older, and numbers falling out of the 2^15 window are discarded.
+   When everything retained has been reported (S >= hi) a record of number U
+   at time t >= 500 ms first discards, from the low end of the window and
+   only below U, every number that has no retained arrival or whose arrival
+   is at or before t - 500 ms, up to the first number that has a younger one. *)
+Record truth := mkTruth { t_R : list (Z * Z); t_lo : Z; t_hi : Z; t_S : option Z; t_any : bool }.
 
-(* the "retained" reading (DESIGN C05).  An arrival a is no longer part of the
-   history when
-   (window) some record made before position hi is 2^15 or more ahead of it, or
-   (cull)   after a feedback build that followed a, a record of a higher number
-            arrived at least 500 ms after a (before position hi). *)
-(* (vm_compute is call-by-value: "if" instead of && / || keeps the scans lazy) *)
-Definition window_excused (G : list grec) (hi U : Z) : bool :=
-  existsb (fun r => if g_u r - U >=? 32768 then g_i r <? hi else false) G.
-Definition cull_excused (G : list grec) (Bs : list Z) (hi : Z) (a : grec) : bool :=
-  existsb (fun r => if g_i a <? g_i r then if g_i r <? hi then if g_u r >? g_u a then
-                    if g_t r >=? g_t a + 500000 then existsb (fun pb => (g_i a <? pb) && (pb <? g_i r)) Bs
-                    else false else false else false else false) G.
-Definition excused (G : list grec) (Bs : list Z) (hi : Z) (a : grec) : bool :=
-  if window_excused G hi (g_u a) then true else cull_excused G Bs hi a.
+Definition r_find (U : Z) (R : list (Z * Z)) : option Z :=
+  match find (fun e => fst e =? U) R with Some e => Some (snd e) | None => None end.
+
+Definition min_list (d : Z) (l : list Z) : Z := fold_left Z.min l d.
+
+Definition truth_cull (g : truth) (U t : Z) : truth :=
+  match t_S g with
+  | Some s =>
+      if (s >=? t_hi g) && (t >=? 500000) then
+        let stop := Z.min U (t_hi g) in
+        if t_lo g <? stop then
+          let young := map fst (filter (fun e => snd e >? t - 500000) (t_R g)) in
+          let lo' := min_list stop young in
+          mkTruth (filter (fun e => lo' <=? fst e) (t_R g)) lo' (t_hi g) (t_S g) (t_any g)
+        else g
+      else g
+  | None => g
+  end.
+
+Definition truth_record (g0 : truth) (U t : Z) : truth :=
+  let g := truth_cull g0 U t in
+  let S1 := match t_S g with None => U | Some s => Z.min s U end in
+  let already := match r_find U (t_R g) with Some t0 => t0 >=? 0 | None => false end in
+  if already then mkTruth (t_R g) (t_lo g) (t_hi g) (Some S1) true
+  else
+    let R0 := filter (fun e => negb (fst e =? U)) (t_R g) in     (* replaces an arrival with a negative time *)
+    let g' :=
+      if negb (t_any g) then mkTruth [(U, t)] U (U + 1) None true
+      else if (t_lo g <=? U) && (U <? t_hi g) then mkTruth ((U, t) :: R0) (t_lo g) (t_hi g) None true
+      else if U <? t_lo g then
+        (if t_hi g - U >? 32768 then g else mkTruth ((U, t) :: R0) U (t_hi g) None true)
+      else if U + 1 >=? t_hi g + 32768 then mkTruth [(U, t)] U (U + 1) None true
+      else let lo' := Z.max (t_lo g) (U + 1 - 32768) in
+           mkTruth ((U, t) :: filter (fun e => lo' <=? fst e) R0) lo' (U + 1) None true in
+    mkTruth (t_R g') (t_lo g') (t_hi g') (Some (Z.max S1 (t_lo g'))) true.
 
 (* within 125 us, modulo the 24-bit reference-time range 2^24 * 64 ms *)
 Definition Mref : Z := 1073741824000.
 Definition near (T t : Z) : bool := let d := (T - t) mod Mref in (d <=? 125) || (Mref - d <=? 125).
 
-(* An arrival a of a number may be passed over (it is not "the first one still
-   within the history") at position hi when it has left the history by then
-   (excused), or when it was a duplicate on arrival: an earlier arrival of the
-   same number was still in the history when a came, so Record ignored a
-   ("we are only interested in the first time a packet is received").
-   [earlier] = the arrivals of the same number before a, oldest first. *)
-Fixpoint all_skippable (G : list grec) (Bs : list Z) (hi : Z) (earlier arrs : list grec) : bool :=
-  match arrs with
-  | [] => true
-  | a :: tl =>
-      if (if excused G Bs hi a then true
-          else existsb (fun h => negb (excused G Bs (g_i a) h)) earlier)
-      then all_skippable G Bs hi (earlier ++ [a]) tl
-      else false
-  end.
-
-(* T is the time of the first arrival of its number still in the history:
-   some arrival matches and every earlier arrival of the number can be passed
-   over at the time the matching one was recorded *)
-Fixpoint match_first (G : list grec) (Bs : list Z) (earlier cands : list grec) (T : Z) : bool :=
-  match cands with
-  | [] => false
-  | a :: tl =>
-      if (if near T (g_t a) then all_skippable G Bs (g_i a) [] earlier else false) then true
-      else match_first G Bs (earlier ++ [a]) tl T
-  end.
-
-Definition arrivals_of (G : list grec) (U : Z) : list grec := rev (filter (fun r => g_u r =? U) G).  (* oldest first *)
-
-(* checks of one packet against ground truth; G newest first, pos = position of this build *)
-Definition sem_code (G : list grec) (Bs : list Z) (pos UB : Z) (p : pkt) (recv : list (Z * Z)) : nat :=
-  if existsb (fun e => match arrivals_of G (fst e) with [] => true | _ => false end) recv then 6%nat
-  else if negb (forallb (fun e => match_first G Bs [] (arrivals_of G (fst e)) (snd e)) recv) then 7%nat
-  else if negb (forallb (fun r =>
-            if UB <=? g_u r then if g_u r <? UB + p_count p then
-              if existsb (fun e => fst e =? g_u r) recv then true else all_skippable G Bs pos [] (arrivals_of G (g_u r))
-            else true else true) G) then 8%nat
+(* checks of one packet (numbers UB .. UB+count-1) against the retained arrivals *)
+Definition sem_code (R : list (Z * Z)) (UB : Z) (p : pkt) (recv : list (Z * Z)) : nat :=
+  if existsb (fun e => match r_find (fst e) R with None => true | Some t => t <? 0 end) recv then 6%nat      (* reported received, no arrival *)
+  else if negb (forallb (fun e => match r_find (fst e) R with Some t => near (snd e) t | None => false end) recv) then 7%nat
+  else if existsb (fun e => if snd e >=? 0 then if UB <=? fst e then if fst e <? UB + p_count p
+                            then negb (existsb (fun r => fst r =? fst e) recv) else false else false else false) R
+       then 8%nat                                                             (* marked not received, has an arrival *)
   else 0%nat.
 
 Definition first_nonzero (a b : nat) : nat := match a with O => b | _ => a end.
 
 (* all packets of one build: returns (failure code, reported numbers) *)
-Fixpoint check_pkts (sender media : Z) (G : list grec) (Bs : list Z) (pos maxU : Z)
+Fixpoint check_pkts (sender media : Z) (R : list (Z * Z)) (maxU : Z)
          (expect_base : option Z) (fb : Z) (ps : list pkt) : nat * list (Z * Z) :=
   match ps with
   | [] => (0%nat, [])
@@ -245,49 +247,45 @@ Fixpoint check_pkts (sender media : Z) (G : list grec) (Bs : list Z) (pos maxU :
         else if negb (UB mod 65536 =? p_base p) then 10%nat
         else if negb (wire_fields_ok p) then 3%nat
         else first_nonzero (struct_code p)
-               (if negb (bytes_ok p) then 12%nat else sem_code G Bs pos UB p recv) in
+               (if negb (bytes_ok p) then 12%nat else sem_code R UB p recv) in
       match code with
-      | O => let '(c, rs) := check_pkts sender media G Bs pos maxU (Some (UB + p_count p)) ((fb + 1) mod 256) tl in
+      | O => let '(c, rs) := check_pkts sender media R maxU (Some (UB + p_count p)) ((fb + 1) mod 256) tl in
              (c, recv ++ rs)
       | _ => (code, [])
       end
   end.
 
-Definition maxU_of (G : list grec) : Z := fold_left (fun m r => Z.max m (g_u r)) G 0.
+(* every retained arrival not yet reported is reported by this build *)
+Definition all_pending_reported (g : truth) (reported : list (Z * Z)) : bool :=
+  match t_S g with
+  | None => true
+  | Some s => forallb (fun e => if snd e >=? 0 then if s <=? fst e
+                                then existsb (fun r => fst r =? fst e) reported else true else true) (t_R g)
+  end.
 
-(* every number first recorded since the previous build and still in the window is reported *)
-Definition all_new_reported (G : list grec) (prevB pos : Z) (reported : list (Z * Z)) : bool :=
-  forallb (fun r =>
-    if g_i r <=? prevB then true
-    else if existsb (fun e => fst e =? g_u r) reported then true
-    else if existsb (fun r' => if g_u r' =? g_u r then g_i r' <? g_i r else false) G then true
-    else window_excused G pos (g_u r)) G.
+Record ost := mkOst { o_unw : option Z; o_truth : truth; o_fb : Z; o_media : Z }.
 
-Record ost := mkOst {
-  o_unw : option Z; o_G : list grec; o_Bs : list Z; o_prevB : Z; o_fb : Z; o_media : Z }.
-
-Fixpoint oracle (sender : Z) (i : Z) (st : ost) (ops : list op) (outs : list (list pkt)) : nat :=
+Fixpoint oracle (sender : Z) (st : ost) (ops : list op) (outs : list (list pkt)) : nat :=
   match ops with
   | [] => match outs with [] => 0%nat | _ => 1%nat end
   | Rec ssrc seq t :: tl =>
       let '(unw', u) := unwrap (o_unw st) seq in
-      oracle sender (i + 1) (mkOst unw' ((i, u, t) :: o_G st) (o_Bs st) (o_prevB st) (o_fb st) ssrc) tl outs
+      oracle sender (mkOst unw' (truth_record (o_truth st) u t) (o_fb st) ssrc) tl outs
   | Build :: tl =>
       match outs with
       | [] => 1%nat
       | ps :: outs' =>
-          let G := o_G st in
+          let g := o_truth st in
           let code :=
-            match G, ps with
-            | [], [] => 0%nat
-            | [], _ => 2%nat
-            | _, _ =>
-                let '(c, reported) := check_pkts sender (o_media st) G (o_Bs st) i (maxU_of G) None (o_fb st) ps in
-                first_nonzero c (if all_new_reported G (o_prevB st) i reported then 0%nat else 9%nat)
-            end in
+            if negb (t_any g) then (match ps with [] => 0%nat | _ => 2%nat end)
+            else
+              let '(c, reported) := check_pkts sender (o_media st) (t_R g) (t_hi g - 1) None (o_fb st) ps in
+              first_nonzero c (if all_pending_reported g reported then 0%nat else 9%nat) in
           match code with
-          | O => oracle sender (i + 1)
-                   (mkOst (o_unw st) G (i :: o_Bs st) i ((o_fb st + Z.of_nat (length ps)) mod 256) (o_media st)) tl outs'
+          | O => let S' := match t_S g with Some s => Some (Z.max s (t_hi g)) | None => None end in
+                 oracle sender
+                   (mkOst (o_unw st) (mkTruth (t_R g) (t_lo g) (t_hi g) S' (t_any g))
+                          ((o_fb st + Z.of_nat (length ps)) mod 256) (o_media st)) tl outs'
           | _ => code
           end
       end
@@ -295,7 +293,7 @@ Fixpoint oracle (sender : Z) (i : Z) (st : ost) (ops : list op) (outs : list (li
 
 Definition rec_spec_code (c : c05_case) : nat :=
   let '(sender, ops, outs) := c in
-  oracle sender 0 (mkOst None [] [] (-1) 0 0) ops outs.
+  oracle sender (mkOst None (mkTruth [] 0 0 None false) 0 0) ops outs.
 
 (* (index, failure code) as Z pairs: generated case files are in Z scope, where
    nat pairs would print with %nat and not be recognised by bin/check *)
